@@ -192,6 +192,11 @@ def known_for(case, r, what):
             continue
         if m.get("kind") == "echo-shape" and re.search(m["echo_regex"], r["echo"]):
             return f
+        if m.get("kind") == "base-unit-implicit-dimension":
+            # last line of the echo is `unit NAME: TYPE` with TYPE the camel-cased NAME
+            mm = re.search(r"(?:^|\n)unit (\w+): (\w+)$", r["echo"])
+            if mm and mm.group(2).lower() == mm.group(1).replace("_", "").lower():
+                return f
         if m.get("kind") == "times-only":
             # the two echoes differ only in explicit vs. juxtaposed multiplication, and the values agree
             strip = lambda s: re.sub(r"\s+", " ", s.replace("×", " "))
